@@ -49,6 +49,8 @@ def strat_smc(tier):
         'seed': st.integers(0, 2 ** 32 - 1),
         'schedule': st.lists(st.integers(0, 11), min_size=0, max_size=40),
         'lag': st.booleans(),
+        # a second sample() call on the same sampler object (continued SMC) with 1-2 further thresholds
+        'cont': st.one_of(st.none(), st.none(), st.lists(st.integers(15, 45), min_size=1, max_size=2)),
     })
 
 
@@ -86,6 +88,12 @@ def _run(case, objkw, client, mpb):
         s = cls(m['d'], batch_size=case['bs'], seed=case['seed'], output_names=['rid'], max_parallel_batches=mpb)
         with time_limit(120, 'C04:run-does-not-terminate', '%s.sample' % cls.__name__):
             res = s.sample(case['n'], bar=False, **objkw)
+            if case.get('cont') and case['sampler'] == 'smc':
+                fin = pilot(case['model'], case['seed'])
+                models.reset()
+                lowest = min(float(p.threshold) for p in res.populations)
+                cths = sorted((min(float(fin[min(len(fin) - 1, int(len(fin) * v / 100.0))]), lowest) for v in case['cont']), reverse=True)
+                res = s.sample(case['n'], bar=False, thresholds=cths)
     finally:
         schedclient.restore_native()
     return res, s
@@ -168,6 +176,8 @@ def run_case(case):
         labels.append('cancelled>=2')
     if case['mpb'] is None:
         labels.append('mpb-from-cores')
+    if case.get('cont') and case['sampler'] == 'smc':
+        labels.append('continued-sampling')
     if case['obj'][0] in ('n_sim', 'quantile'):
         nontrivial = True if speculative else None
     else:
@@ -178,7 +188,7 @@ def run_case(case):
 CHECK = Check(
     P, 'exploration',
     rule=('Hypothesis-generated (model, sampler configuration, schedule) triples: Rejection with threshold | quantile | n_sim and SMC '
-          'with 1-3 rounds of thresholds or quantiles, batch_size 1-6, n_samples 2-10, max_parallel_batches None (client cores 1-4 decide) '
+          'with 1-3 rounds of thresholds or quantiles (optionally continued by a second sample() call on the same object), batch_size 1-6, n_samples 2-10, max_parallel_batches None (client cores 1-4 decide) '
           'or 1-6, and a schedule of 0-40 integers that drives which outstanding tasks the client executes at every apply/is_ready/'
           'get_result and whether is_ready lags. Non-trivial = at least one speculative submission (>= 2 outstanding) and, for '
           'threshold/SMC objectives, at least one cancelled batch.'),
